@@ -650,6 +650,53 @@ def _same_buf(v, loc):
     return isinstance(v, _Ref) and isinstance(v.place, ElemPlace) and v.place.arr is loc.place.arr
 
 
+def format_items(fmt, a, lit=None):
+    """what printf(fmt, *a) writes, for formats made of plain text and the conversions %%, %c, %s (of a constant string) and
+    %.*s (a counted spelling): list of ('sep', text) / ('tok', len, loc) in output order; None when not understood.
+    lit(v) -> python text of a constant string argument or None"""
+    if lit is None:
+        lit = lambda v: v if isinstance(v, str) else None
+    out, text, i, k = [], '', 0, 0
+    a = list(a)
+    while i < len(fmt):
+        c = fmt[i]
+        if c != '%':
+            text += c
+            i += 1
+            continue
+        if fmt.startswith('%%', i):
+            text += '%'
+            i += 2
+        elif fmt.startswith('%.*s', i):
+            if k + 2 > len(a):
+                return None
+            if text:
+                out.append(('sep', text)); text = ''
+            out.append(('tok', a[k], a[k + 1]))
+            k += 2
+            i += 4
+        elif fmt.startswith('%s', i):
+            s = lit(a[k]) if k < len(a) else None
+            if s is None:
+                return None
+            text += s
+            k += 1
+            i += 2
+        elif fmt.startswith('%c', i):
+            if k >= len(a) or not isinstance(a[k], int) or isinstance(a[k], bool):
+                return None
+            text += chr(a[k] & 255)
+            k += 1
+            i += 2
+        else:
+            return None
+    if k != len(a):
+        return None
+    if text:
+        out.append(('sep', text))
+    return out
+
+
 def _out_items(name, args):
     """what one stdio call writes: list of ('sep', text) / ('tok', len, loc); None when not understood"""
     def lit(v):
@@ -664,19 +711,8 @@ def _out_items(name, args):
         fmt = lit(a[0])
         if fmt is None:
             return None
-        if '%' not in fmt:
-            return [('sep', fmt)]
-        if fmt == '%.*s' and len(a) == 3:
-            return [('tok', a[1], a[2])]
-        if fmt == '%s' and len(a) == 2 and lit(a[1]) is not None and not isinstance(a[1], _Ref):
-            return [('sep', lit(a[1]))]
-        if fmt == '%c' and len(a) == 2 and isinstance(a[1], int):
-            return [('sep', chr(a[1] & 255))]
-        # "<text>%.*s<text>"
-        if fmt.count('%') == 1 and '%.*s' in fmt and len(a) == 3:
-            pre, post = fmt.split('%.*s')
-            return ([('sep', pre)] if pre else []) + [('tok', a[1], a[2])] + ([('sep', post)] if post else [])
-        return None
+        # (characters of a buffer written through %s are not a constant separator: only string constants count)
+        return format_items(fmt, a[1:], lambda v: None if isinstance(v, _Ref) else lit(v))
     if name in ('fputs', 'puts'):
         s = lit(args[0]) if args and not isinstance(args[0], _Ref) else None
         return None if s is None else [('sep', s + ('\n' if name == 'puts' else ''))]
